@@ -681,7 +681,7 @@ def read_matrix(tr, rng, limit=None):
     if limit and len(pairs) > limit:
         own = [("Bearer " + t, c) for t, c in toks]
         rest = [p for p in pairs if p not in own]
-        pairs = own + rng.sample(rest, max(0, limit - len(own)))
+        pairs = own + rng.sample(rest, min(len(rest), max(0, limit - len(own))))
     for h, c in pairs:
         tr.read(h, c)
 
